@@ -357,7 +357,8 @@ class CallMixin:
                 import re as _re
                 from .strings import Text as _Text
                 from .values import IntStr as _IntStr
-                tx = _Text.of(args[1])
+                from .strings import FmtResult as _Fmt0
+                tx = _Text.of(args[1]._view(self, st) if isinstance(args[1], _Fmt0) else args[1])
                 if isinstance(recv.obj, _re.Pattern) and tx is not None:
                     from . import textlex
                     for pc_ in tx.pieces:
@@ -413,6 +414,22 @@ class CallMixin:
         if isinstance(r, list):
             return r
         return [(st, r)]
+
+    def b_re_escape(self, args, kws, st, node):
+        import re as _re
+        if isinstance(args[0], str):
+            return _re.escape(args[0])
+        raise OutOfReach("re.escape of a symbolic text")
+
+    def b_re_compile(self, args, kws, st, node):
+        import re as _re
+        if all(isinstance(a, (str, int)) for a in args) and not kws:
+            try:
+                return RealObj(_re.compile(*args))
+            except _re.error:
+                self.raise_exc(st, "Exception", node)
+                return []
+        raise OutOfReach("re.compile of a symbolic pattern")
 
     def b_spec_implies(self, args, kws, st, node):
         (a, b) = args
